@@ -2,7 +2,7 @@ SPECIFICATION Spec
 CONSTANTS
   Cases <- MC_Cases
   Machines <- MC_Machines
-  MaxLen <- MC_MaxLen
+  MaxLenOf <- MC_MaxLenOf
 INVARIANT CaseLaws
 INVARIANT RefinesAllFixed
 CONSTRAINT ExportCase
